@@ -230,6 +230,13 @@ class Bounds:
                     if v == 0:
                         edges.setdefault(q, []).append(cons_false)
                 edges.setdefault(other, []).append(cons_true)
+            elif is_bool and rv is None and not (1 <= dl <= b.mir["arg_count"] and False):
+                # `if flag` on a boolean variable itself (no comparison): the same facts as `flag == true`
+                x = self.lin_local(dl)
+                for v, q in targets:
+                    if v == 0:
+                        edges.setdefault(q, []).append([(x, "eq")])
+                edges.setdefault(other, []).append([(x.add(Lin({}, -1)), "eq")])
             elif not is_bool and b.locals[dl].get("k") in ("uint", "int"):
                 x = self.lin_local(dl)
                 listed = []
@@ -280,6 +287,10 @@ class Bounds:
                     if not y.t and y.c == 0 and self._unsigned_op(ox):
                         nec = [(Lin({}, 1).add(x, -1), "le")]
                 t, f = (eqc, nec) if op == "Eq" else (nec, eqc)
+        elif rv["k"] == "use" and rv["op"]["k"] in ("copy", "move") and not rv["op"]["place"]["p"] and \
+                self.b.locals[rv["op"]["place"]["l"]]["s"] == "bool":
+            x = self.lin_op(rv["op"])          # `if flag`: a copy of a boolean variable
+            t, f = [(x.add(Lin({}, -1)), "eq")], [(x, "eq")]
         elif rv["k"] == "call":
             tm = rv["t"]
             nm = tm["callee"].get("resolved") or tm["callee"].get("path", "")
